@@ -60,6 +60,15 @@ func (x02) Gen(tier string, seed int64, emit func([]Ev)) {
 		}
 		emit([]Ev{{"op": "createseq", "pid": pid, "opts": opts, "kind": "create"}})
 	}
+	// the convenience constructors = their documented compositions of Create and SetCC (Create!ExpectCreateFn)
+	for k := 0; k < 48*per; k++ {
+		kind := []string{"CreateTestPacket", "CreateDCPacket", "CreatePacketWithPayload"}[k%3]
+		d := rndBytes(r, []int{0, 1, 17, 183, 184, 185, 300}[r.Intn(7)])
+		if kind != "CreatePacketWithPayload" {
+			d = []byte{}
+		}
+		emit([]Ev{{"op": "createfn", "kind": kind, "pid": r.Intn(8192), "cc": k / 3 % 16, "pusi": k/3%2 == 1, "haspay": k/6%2 == 1, "d": B(d)}})
+	}
 	// adaptation fields of length 183 that are completely full (cannot shrink)
 	for k := 0; k < 20*per; k++ {
 		a := absAF{Len: 183, HasTPD: true, TPD: rndBytes(r, 181)}
@@ -82,6 +91,22 @@ func (x02) Exec(h []Ev) []Ev {
 				e["before"] = B(packet.New()[:])
 				af := packet.NewAdaptationField()
 				e["after"] = B(af[:])
+			})
+			continue
+		}
+		if GS(e["op"]) == "createfn" {
+			e["panic"] = guard(func() {
+				var p *packet.Packet
+				pid, cc := GI(e["pid"]), uint8(GI(e["cc"]))
+				switch GS(e["kind"]) {
+				case "CreateTestPacket":
+					p = packet.CreateTestPacket(pid, cc, GBool(e["pusi"]), GBool(e["haspay"]))
+				case "CreateDCPacket":
+					p = packet.CreateDCPacket(pid, cc)
+				default:
+					p = packet.CreatePacketWithPayload(pid, cc, GB(e["d"]))
+				}
+				e["after"] = B(p[:])
 			})
 			continue
 		}
@@ -129,6 +154,9 @@ func (x02) Exec(h []Ev) []Ev {
 func (x02) Class(e Ev) string {
 	if GS(e["op"]) == "newaf" {
 		return "newaf"
+	}
+	if GS(e["op"]) == "createfn" {
+		return fmt.Sprintf("createfn/%s/pusi%v/pay%v/len%d", GS(e["kind"]), GBool(e["pusi"]), GBool(e["haspay"]), len(GB(e["d"])))
 	}
 	if GS(e["op"]) == "createseq" {
 		c := "create"
